@@ -179,6 +179,12 @@ func defectiveValue(r *gen.Rng, t string) (interface{}, string) {
 	case 4:
 		if m, ok := v.(map[string]interface{}); ok {
 			m["nope"] = 1
+			if r.Bool() {
+				m["__typename"] = "Pt" // tolerated by itself (F-C4), but it must not hide the unknown key
+			}
+			if r.Chance(1, 3) {
+				m["zz"] = nil
+			}
 			return m, "unknown field"
 		}
 		return v, "none"
